@@ -126,6 +126,30 @@ def check_tree(n, m, acc):
                 acc.violation("C18|rollout-of-nested-mapping-not-identity",
                               {"tree": m, "leaves": n, "mapping": safe_repr(d, 400),
                                "got": safe_repr(idn, 400)})
+            else:
+                # ... also with a top-level `...: ...` entry, twice on the same mapping object, and
+                # the mapping handed in is left as it was
+                dt = dict(d)
+                dt[E] = E
+                before = list(dt.items())
+                acc.count("cases")
+                try:
+                    r1 = rollout(dt)
+                    r2 = rollout(dt)
+                except Exception as e:  # noqa: BLE001
+                    r1 = r2 = e
+                exp = dict(d)
+                exp[E] = E
+                if not (isinstance(r1, dict) and same(r1, exp) and isinstance(r2, dict) and same(r2, exp)):
+                    acc.violation("C18|rollout-of-nested-mapping-with-ellipsis-not-identity",
+                                  {"tree": m, "leaves": n, "mapping": safe_repr(exp, 400),
+                                   "got": safe_repr(r1, 300) + " / " + safe_repr(r2, 300)})
+                now = list(dt.items())
+                if len(now) != len(before) or any(a[0] is not b[0] or a[1] is not b[1]
+                                                  for a, b in zip(now, before)):
+                    acc.violation("C18|rollout-changed-the-mapping-it-was-given",
+                                  {"tree": m, "leaves": n, "before": safe_repr(before, 300),
+                                   "after": safe_repr(now, 300)})
             for sep in SEPS:
                 if any(sep in k for p in lp for k in p):
                     continue          # keys must be separator-free
@@ -143,11 +167,14 @@ def check_tree(n, m, acc):
                             exp = dict(d)
                             exp[E] = E
                         acc.count("cases")
+                        given = list(flat.items())
                         try:
                             got = rollout(flat, separator=sep)
                         except Exception as e:  # noqa: BLE001
                             got = e
                         ok = isinstance(got, dict) and same(got, exp)
+                        if list(flat.items()) != given:
+                            ok = False      # the flat mapping handed in was changed
                         if not ok:
                             kind = ("raises:" + type(got).__name__) if isinstance(got, Exception) \
                                 else "differs"
